@@ -362,8 +362,8 @@ PROPS = {
         "design_ref": "DESIGN.md section 3 (C17)",
         "technique": "Verus contracts on the real write_json_str, Display for TagValue / TagList / Level and LogEvent::write_jsonl (write! / writeln! "
                      "expanded piece by piece by rule R12 over a character-sink model of std::fmt) against a piecewise line specification; theorems over "
-                     "the specification: an RFC 8259 string decoder written independently of the encoder reads every string member back and "
-                     "stops at its own closing quote; the line has no control character except its final line break",
+                     "the specification: an RFC 8259 reader written independently of the encoder (strings with every escape; a flat object of string / "
+                     "bare-token values) reads the line back as exactly the expected member list; the line has no control character except its final line break",
         "level_text": "Deductive proof for every string (every Unicode scalar value sequence), every tag list and every event, unbounded: "
                       "write_json_str appends exactly '\"' + escape of every character + '\"' (\\\", \\\\, \\n, \\r, \\t, \\u00XX for the other "
                       "characters below 0x20, everything else verbatim); a tag value is written as that JSON string, the decimal form of the "
@@ -373,14 +373,18 @@ PROPS = {
                       "string decoder started at the string's opening quote returns exactly s and ends exactly after its closing quote -- a "
                       "value cannot terminate its string early, add members or continue into the next member; every member name and string "
                       "value reads back (thm_string_member_reads_back); the line contains no character below 0x20 before its final '\\n' "
-                      "(thm_one_line), so it is exactly one line.",
+                      "(thm_one_line), so it is exactly one line; and the whole line, read by a reader written from the RFC 8259 grammar for a flat object "
+                      "(key strings, ':' , string or bare-token values, ',' separators, '}' and the final line break), yields exactly the members "
+                      "time, level, one per tag in list order -- string tags as strings that decode to the tag's text, the others as their bare "
+                      "token -- and time_ns (thm_line_is_object, by lemma_parse_members: induction over the member list).",
         "level_note": "Assumed (std::fmt): write!/writeln! write the literal pieces verbatim and each argument through its Display impl, in order; "
                       "Display of the integer types is the decimal form (digits, leading '-'), `{:0N}` of a non-negative i64 is digits only; "
                       "Display of bool / String; Formatter::write_char / write_str append; char::from_digit. A Float tag holds the text std's "
                       "Display produced for a finite f32 / f64 (non-finite values are logged as strings since fix 61b4c0b); that this text is a "
-                      "JSON number is not proved (bounded stand-in c17 only). The object-level grammar (that the whole line parses as one "
-                      "object with exactly these members) is checked by the bounded stand-in c17 with an independent RFC 8259 parser; the "
-                      "deductive part proves the piecewise shape, the string members and the single-line clause. SystemTime -> (date, ns) "
+                      "JSON number is not proved (it is a precondition `raw_ok` of the object theorem: a bare token without quote, separator, blank or "
+                      "control character; bounded stand-in c17 checks real floats with an independent RFC 8259 parser). Bare tokens are not "
+                      "checked against the number grammar in the deductive part (integers are digits with an optional leading '-' by the assumed "
+                      "Display contract). SystemTime -> (date, ns) "
                       "conversions are uninterpreted here (C16 proves DateTime::new).",
         "verus": ["jsonl"],
         "verus_thorough": [],
@@ -394,7 +398,7 @@ PROPS = {
             "string literals denote their characters (Verus reveal_strlit, generated from the literal tokens)",
         ],
         "not_covered": [
-            "that the whole line is one RFC 8259 object with exactly the expected members (object-level grammar): bounded stand-in c17 with an independent parser",
+            "that a bare token is a valid JSON number / literal (the object reader accepts any token without quote, separator, blank or control character): bounded stand-in c17",
             "that std prints a finite float as a JSON number; From<f32> / From<f64> / From<&Path> conversions (format!)",
             "the stdout logger's non-JSON format (start_stdout_logger_thread), Debug impls",
             "UTF-8 encoding of the characters by the sink (std)",
